@@ -64,7 +64,7 @@ def cases(draw: Any) -> dict[str, Any]:
         "random_seed": draw(st.integers(0, 10**6)),
     }
     return {"spec": spec, "settings": settings, "gens": draw(st.integers(2, 8)), "desired": draw(st.integers(3, 10)),
-            "direct": draw(st.lists(st.tuples(st.sampled_from(["eval", "edit", "replace", "crossover", "copy"]),
+            "direct": draw(st.lists(st.tuples(st.sampled_from(["eval", "eval", "edit", "swap", "swap", "replace", "crossover", "copy"]),
                                               st.integers(0, 50), st.integers(0, 50)), min_size=4, max_size=14))}
 
 
@@ -211,6 +211,20 @@ def check_case(case: dict[str, Any], ctx: Any = None) -> list[str]:
                     donor = g.fuzz(n.symbol, max_nodes=6)
                     n.set_children(list(donor.children))
                     edited = True
+            elif op == "swap":
+                # an in-place edit that keeps the node count of the edited node: another derivation of the same size
+                nodes = [n for n in t.flatten() if n.symbol.is_non_terminal and n.children and n.parent is not None
+                         and all(c.symbol.is_terminal for c in n.children)]
+                if nodes:
+                    n = nodes[j % len(nodes)]
+                    for _ in range(6):
+                        donor = g.fuzz(n.symbol, max_nodes=6)
+                        if donor.size() == n.size() and str(donor) != str(n):
+                            n.set_children(list(donor.children))
+                            edited = True
+                            if ctx is not None:
+                                ctx.count("same_size_edits")
+                            break
             elif op == "replace":
                 nodes = [n for n in t.flatten() if n.symbol.is_non_terminal and n.parent is not None and not n.read_only]
                 if nodes:
